@@ -57,8 +57,9 @@ type tMapEach struct { // map built with one entry per element of Over
 	Elem     *tSym
 	Key, Val tv
 }
-type tMapUnion struct { // a map filled by several loops, one part per loop
+type tMapUnion struct { // a map filled by several loops (one part per loop), possibly after some literal entries
 	T     types.Type
+	Lit   *tMapLit
 	Parts []*tMapEach
 }
 type tMapLit struct {
@@ -132,6 +133,9 @@ func (t *tMapEach) ts() string {
 }
 func (t *tMapUnion) ts() string {
 	var parts []string
+	if t.Lit != nil && len(t.Lit.Keys) > 0 {
+		parts = append(parts, t.Lit.ts())
+	}
 	for _, p := range t.Parts {
 		parts = append(parts, p.ts())
 	}
@@ -225,6 +229,7 @@ type loopCollector struct {
 	idxSets  map[*tcell]tv    // outer slice tcell -> value stored at [loop index]
 	mapSets  map[*tcell][2]tv // outer map tcell -> key, val
 	prior    map[*tcell][]*tMapEach // maps already filled by earlier loops: this loop adds a part
+	priorLit map[*tcell]*tMapLit    // literal entries the map already had
 	sorted   bool
 	distinct bool // the visited keys are pairwise distinct (they come from a map)
 	outer    *sevEnv
@@ -580,7 +585,7 @@ func (s *sev) callFn(fr *sevFrame, f *tFn, args []tv, packed bool, resT types.Ty
 		for d, e := range s.fnPairs {
 			sig := fo.Type().(*types.Signature)
 			if fo == e && len(args) >= 1 {
-				var res tv = &tEnc{X: args[0], By: fo}
+				var res tv = &tEnc{X: args[len(args)-1], By: fo}
 				if _, isPtr := types.Unalias(sig.Results().At(0).Type()).Underlying().(*types.Pointer); isPtr {
 					res = &tPtr{&tcell{res}}
 				}
@@ -746,6 +751,21 @@ func (s *sev) callFn(fr *sevFrame, f *tFn, args []tv, packed bool, resT types.Ty
 			return &tTuple{[]tv{&tCallU{Name: "json.Marshal", Args: []tv{v}}, tNil{}}}
 		case "encoding/json.Unmarshal":
 			if m, ok := args[0].(*tCallU); ok && m.Name == "json.Marshal" {
+				if pp, ok := args[1].(*tPtr); ok {
+					pp.C.v = cloneTV(m.Args[0])
+					return tNil{}
+				}
+			}
+			// a raw message cut out of an enclosing document: it still carries the value that was encoded there
+			switch raw := args[0].(type) {
+			case *tEnc, *tObj:
+				if pp, ok := args[1].(*tPtr); ok {
+					pp.C.v = cloneTV(raw)
+					return tNil{}
+				}
+			}
+			// json.Unmarshal into an alloc'd variable evaluated as a plain value cell
+			if m, ok := args[0].(*tCallU); ok && m.Name == "json.RawMessage" && len(m.Args) == 1 {
 				if pp, ok := args[1].(*tPtr); ok {
 					pp.C.v = cloneTV(m.Args[0])
 					return tNil{}
@@ -1644,6 +1664,23 @@ func (s *sev) isOuterCell(lc *loopCollector, c *tcell) bool {
 	return false
 }
 
+// collectMapCells records the current value of every cell (reachable from c) that holds a map union.
+func collectMapCells(c *tcell, out map[*tcell]tv, d int) {
+	if c == nil || d > 6 {
+		return
+	}
+	switch x := c.v.(type) {
+	case *tMapUnion:
+		out[c] = x
+	case *tObj:
+		for _, fc := range x.F {
+			collectMapCells(fc, out, d+1)
+		}
+	case *tPtr:
+		collectMapCells(x.C, out, d+1)
+	}
+}
+
 func reachesCell(v tv, c *tcell, d int) bool {
 	if d > 6 || v == nil {
 		return false
@@ -1694,7 +1731,16 @@ func (s *sev) indexStore(fr *sevFrame, base *tcell, idx, v tv) {
 				return
 			case *tMapLit:
 				if len(b.Keys) != 0 {
-					s.abort("map store in loop into a non-empty map")
+					// literal entries first, then one entry per element: a union
+					if _, dup := lc.mapSets[base]; dup {
+						s.abort("two stores to the same map in one iteration")
+					}
+					if lc.priorLit == nil {
+						lc.priorLit = map[*tcell]*tMapLit{}
+					}
+					lc.priorLit[base] = b
+					lc.mapSets[base] = [2]tv{idx, v}
+					return
 				}
 				if _, dup := lc.mapSets[base]; dup {
 					s.abort("two stores to the same map in one iteration")
@@ -2167,6 +2213,11 @@ func elemTypeOf(t types.Type) types.Type {
 func (s *sev) execRange(fr *sevFrame, x *ast.RangeStmt) ctl {
 	over := s.deref(s.eval(fr, x.X))
 	if u, ok := over.(*tMapUnion); ok {
+		if u.Lit != nil && len(u.Lit.Keys) > 0 {
+			if c := s.scoped(fr, func() ctl { return s.execRangeOn(fr, x, u.Lit) }); c != ctlNone {
+				return c
+			}
+		}
 		for _, part := range u.Parts {
 			if c := s.scoped(fr, func() ctl { return s.execRangeOn(fr, x, part) }); c != ctlNone {
 				return c
@@ -2355,6 +2406,12 @@ func (s *sev) execRangeOn(fr *sevFrame, x *ast.RangeStmt, over tv) ctl {
 		return c
 	}
 	nsymAtLoop := s.nsym
+	saved2 := map[*tcell]tv{}
+	for e := fr.env; e != nil; e = e.parent {
+		for _, vc := range e.vars {
+			collectMapCells(vc, saved2, 0)
+		}
+	}
 	if runBody() == ctlReturn {
 		return ctlReturn
 	}
@@ -2403,7 +2460,13 @@ func (s *sev) execRangeOn(fr *sevFrame, x *ast.RangeStmt, over tv) ctl {
 	for cl, kv := range lc.mapSets {
 		me := &tMapEach{Over: lc.over, Elem: lc.elem, Key: kv[0], Val: kv[1]}
 		if pr, ok := lc.prior[cl]; ok {
-			cl.v = &tMapUnion{Parts: append(append([]*tMapEach{}, pr...), me)}
+			u := &tMapUnion{Parts: append(append([]*tMapEach{}, pr...), me)}
+			if pu, ok := saved2[cl].(*tMapUnion); ok {
+				u.Lit = pu.Lit
+			}
+			cl.v = u
+		} else if pl, ok := lc.priorLit[cl]; ok {
+			cl.v = &tMapUnion{Lit: pl, Parts: []*tMapEach{me}}
 		} else {
 			cl.v = me
 		}
